@@ -3,7 +3,7 @@ import itertools, json, os
 from harness import common
 from harness.common import coq_list
 
-REQ_EV = ["Verif.gen.EventualGen", "Verif.lib.Eventual"]
+REQ_EV = ["Verif.lib.EventualBase", "Verif.gen.EventualGen", "Verif.lib.EventualSpec", "Verif.lib.Eventual"]
 REQ_PR = ["Verif.gen.EventualGen", "Verif.lib.Promise"]
 SHARD = 500
 
@@ -14,31 +14,37 @@ def run(ctx):
                 "lists (eventually / fireEventually / flushEventualQueue again with such a callback, nested); an exhaustive "
                 "family of small flush-callback shapes (every callback body of <= 2 actions, nested <= 2 levels, requested on "
                 "the idle queue / with work pending / inside a callable; k outstanding observers x which one enqueues x which "
-                "one calls flush again x depth); programs over {makePromise, send, sendOnly, when/_then/"
+                "one calls flush again x depth; callbacks that end by raising / returning a Deferred); programs over {makePromise, send, sendOnly, when/_then/"
                 "_except, resolve with value / promise / Failure, fire the Deferred a method returned, one reactor call} with "
-                "methods that return, raise, return a promise, send again re-entrantly, or return a Deferred (fired before the "
+                "methods that return, raise, do not exist, return a promise, send again re-entrantly, or return a Deferred (fired before the "
                 "send, before / after the delivery, never; with a value, a Failure, a promise); exhaustive families: chains of "
                 "1..3 hops in every order, backlogs of 1..3 messages of every kind (failing sendOnly included) before a "
                 "resolution, eventually()/fireEventually() interleavings; all words up to a length over a template alphabet "
                 "plus seeded random longer ones; "
                 "a case is non-trivial when at least one callable ran / one message was delivered or one observer fired")
     ctx.assumptions = [
-        "Twisted's Deferred (callback/addCallback/succeed/fail/maybeDeferred) and task.Clock are used as they are; the "
-        "reactor is modelled as a single pending call of _turn, run on request",
-        "log.err() in _turn is modelled as 'the exception is swallowed'",
-        "the Promise model shares the FIFO discipline proved for the queue model (one reactor turn = run the tasks "
-        "queued at its start, in order); promise.py's calls of eventually() are modelled as appends to that FIFO",
+        "QUEUE: the model is the statement-by-statement translation of _SimpleCallQueue.append/_turn/flush and of eventually/"
+        "fireEventually/flushEventualQueue (gen/EventualGen.v) over the vocabulary of lib/EventualBase.v; hand-written and "
+        "trusted is only the ENVIRONMENT (lib/Eventual.v): callables are scripts, invoking one performs its actions, the "
+        "Deferred of a flush request fires its callback, the reactor holds ONE pending call of _turn and runs it on request "
+        "(a second callLater while one is pending is not modelled: exact under `if not self._timer`); a `while` loop gets an "
+        "iteration bound that is proved never to be exhausted (C17_ev_observer_loop_complete)",
+        "Twisted's Deferred (callback/addCallback/succeed/fail/maybeDeferred) and task.Clock are used as they are; log.err() "
+        "is translated as 'the exception is written to the log and swallowed'",
+        "the Promise model keeps its own FIFO; C17_pr_runs_on_the_translated_queue proves that it is the translated "
+        "eventual-send queue (every scheduled call = the translated eventually(), a turn = the translated _turn)",
         "a method result that is a Deferred is one Deferred per message, fired at most once by the program (Twisted's "
-        "AlreadyCalledError and Deferreds shared between messages are not generated); a message's method name always "
-        "exists on the target (a missing method is the same path as a raising one: maybeDeferred turns both into a Failure)",
+        "AlreadyCalledError and Deferreds shared between messages are not generated); a missing method is modelled "
+        "(BNoMeth); a private name (send(p)._x) is checked by the direct oracle only",
         "proved, and also measured on every generated program: Promise._resolve2 is never entered on a promise that is "
         "already NEAR/BROKEN (C17_pr_links_exact / C17_pr_link_targets_chained / C17_pr_no_crash)",
-        "the model's events EWhen / EChained / EDelivered-to-a-Failure are bookkeeping without a counterpart in the "
-        "implementation trace (encoded as nothing); the theorems about them are tied to the code through the other events, "
-        "the final snapshot and the direct oracle (delivery-order, observer-count, wrong-resolution)",
-        "a flush observer's callback is modelled as a list of actions (eventually(script) / fireEventually / "
-        "flushEventualQueue() with a callback of the same kind, nested to any depth) that all return normally; callbacks "
-        "that raise, return Deferreds, or cancel/re-fire the flush Deferred are not modelled or generated"]
+        "the model's events EWhen / EChained / EDelivered-to-a-Failure / EDeliveredNM are bookkeeping without a counterpart in "
+        "the implementation trace (encoded as nothing); the theorems about them are tied to the code through the other "
+        "events, the final snapshot and the direct oracle (delivery-order, observer-count, wrong-resolution)",
+        "a flush observer's callback is a list of actions (eventually(script) / fireEventually / flushEventualQueue() with a "
+        "callback of the same kind, nested to any depth); callbacks that then RAISE or RETURN A DEFERRED are generated and "
+        "run against the model of the same callback ending normally (the Deferred keeps both to itself: a queue that "
+        "noticed would disagree with the model); cancelling / re-firing the flush Deferred is not generated"]
     ok, log = ctx.coq_build(["props/C17.vo"])
     from harness import c17_impl as impl
     before = len(ctx.failures)
@@ -207,7 +213,8 @@ def rand_cb(rng, ids, cbdepth):
     for _ in range(rng.choice([1, 1, 2, 2, 3])):
         k = rng.random()
         if k < 0.4 and cbdepth > 0:
-            acts.append(["flush", ids()] + ([rand_cb(rng, ids, cbdepth - 1)] if rng.random() < 0.7 else []))
+            acts.append(["flush", ids()] + ([rand_cb(rng, ids, cbdepth - 1)] + ([rng.choice([1, 2, 3])] if rng.random() < 0.3 else [])
+                                            if rng.random() < 0.7 else []))
         elif k < 0.5:
             acts.append(["fire", ids()])
         elif k < 0.6:
@@ -329,6 +336,39 @@ def ev_flushcb_family(ctx):
     return out
 
 
+def ev_flushcb_end_family(ctx):
+    """flush callbacks that RAISE or RETURN A DEFERRED (unfired / fired) after performing their actions: Twisted's Deferred
+    keeps both to itself, so for the queue they are the same callbacks (the programs are run against the model of the plain
+    callback): requested on the idle queue, with work pending, inside a callable, behind and in front of another
+    observer; the body empty / enqueueing / calling flush again with a callback that ends the same way"""
+    out = []
+    for end in (1, 2, 3):
+        for bk in range(3):
+            for where in range(5):
+                ids = Ids()
+
+                def body():
+                    if bk == 0:
+                        return []
+                    if bk == 1:
+                        return [["enq", [ids(), [], 0]]]
+                    return [["enq", [ids(), [], 0]], ["flush", ids(), [["enq", [ids(), [], 0]]], end]]
+                req = lambda: ["flush", ids(), body(), end]
+                if where == 0:
+                    prog = [["act", req()], ["turn"], ["turn"]]
+                elif where == 1:
+                    prog = [["act", ["enq", [ids(), [], 0]]], ["act", req()], ["turn"], ["turn"]]
+                elif where == 2:
+                    prog = [["act", ["enq", [ids(), [req()], 0]]], ["turn"], ["turn"]]
+                elif where == 3:
+                    prog = [["act", ["enq", [ids(), [], 0]]], ["act", ["flush", ids()]], ["act", req()], ["turn"], ["turn"]]
+                else:
+                    prog = [["act", ["enq", [ids(), [], 0]]], ["act", req()], ["act", ["flush", ids(), [["enq", [ids(), [], 0]]]]],
+                            ["act", req()], ["turn"], ["turn"], ["turn"]]
+                out.append(prog)
+    return out
+
+
 def ev_args_family(ctx):
     """eventually(cb, *args, **kwargs) with argument names that collide with names used inside the queue"""
     from harness import c17_impl as impl
@@ -372,7 +412,7 @@ def ev_fire_family(ctx):
 def ev_programs(ctx):
     fam = ev_flushcb_family(ctx)
     ctx.extra["ev_flushcb_family_programs"] = len(fam)
-    out = fam + ev_raise_family(ctx) + ev_args_family(ctx) + ev_fire_family(ctx)
+    out = fam + ev_flushcb_end_family(ctx) + ev_raise_family(ctx) + ev_args_family(ctx) + ev_fire_family(ctx)
     maxlen = ctx.n(4, 5)
     letters = "NRBQFTLXVK" if ctx.tier == "thorough" else "NRBQFTLK"
     for n in range(1, maxlen + 1):
@@ -410,6 +450,8 @@ def ev_programs(ctx):
 
 ARG_NAMES = ["f", "callable", "func", "self", "args", "kwargs", "methname", "resolver", "_", "name", "method", "d", "t"]
 PR_LETTERS = "SsOWXEVBCvbTRZzY"
+PR_LETTERS_THOROUGH = PR_LETTERS + "N"      # N: send(p0).nosuch_method(..) -- in the quick tier only over PR_NOMETH_CORE
+PR_NOMETH_CORE = "NSOVBT"
 
 
 def pr_letter(ch, st):
@@ -459,6 +501,9 @@ def pr_letter(ch, st):
         return ["resolve", 1, ["fail", 8]]
     if ch == "T":
         return ["turn"]
+    if ch == "N":
+        st["n"] += 1
+        return ["send", 0, mid(), ["nometh"]]                          # the target has no such method
     raise ValueError(ch)
 
 
@@ -484,7 +529,7 @@ def pr_random(rng):
         elif k < 0.45:
             mid += 1
             b = rng.choice([["ret", mid + 40], ["ret", mid + 40], ["raise", mid + 60], ["retp", rng.randrange(n + 1)],
-                            ["sendret", rng.randrange(n), 1000 + mid, mid + 40], ["retd"]])
+                            ["sendret", rng.randrange(n), 1000 + mid, mid + 40], ["retd"], ["nometh"]])
             if b[0] == "retd":
                 dmids.append(mid)
             extra = []
@@ -637,6 +682,76 @@ def pr_backlog_family(ctx):
                 prog += [["sendonly", 0, mid + 1, ["raise", 97]], ["send", 0, mid + 2, ["ret", 50]],
                          ["turn"], ["turn"], ["turn"], ["turn"]]
                 out.append(prog)
+    return out + pr_nometh_backlog(ctx)
+
+
+def pr_nometh_backlog(ctx):
+    """a message to a method the target does not have (send(p).nosuch_method / sendOnly(p).nosuch_method) at every position
+    of a backlog of 1..3 messages; the neighbours return (flavour 0) or raise an Exception / a BaseException (flavour 1),
+    alternating send and sendOnly; the backlog is sent before the promise is resolved (queued in _pendingMethods) or after
+    (scheduled directly); the promise is resolved with a value, a Failure or through a chain; the result promise of a
+    missing-method send() has an observer and is itself sent a message (which must be BROKEN with the same error); one
+    more missing-method sendOnly and an ordinary send follow.  Nothing is invoked for the missing method, its result is
+    BROKEN with the AttributeError, everything around it is delivered in order.  Plus: send(p)._private_name in the
+    middle of a backlog (refused at the call site, nothing queued)."""
+    out = []
+
+    def resolution(res, late):
+        if res == "val":
+            return [["resolve", 0, ["val", 5]]]
+        if res == "fail":
+            return [["resolve", 0, ["fail", 6]]]
+        if late:        # the chain has fired before the backlog is sent: promise 0 is NEAR
+            return [["resolve", 0, ["prom", 1]], ["resolve", 1, ["val", 7]], ["turn"]]
+        return [["resolve", 0, ["prom", 1]], ["turn"], ["resolve", 1, ["val", 7]]]
+
+    def build(behs, res, late):
+        """behs: [(kind, beh)] with beh None standing for a private name"""
+        prog = [["new"], ["new"], ["when", 0, 101, "when"]]
+        nprom, mid, w = 2, 0, 110
+        if late:
+            prog += resolution(res, late)
+        probes = []
+        for kind, beh in behs:
+            mid += 1
+            prog.append([kind, 0, mid, beh])
+            if beh[0] == "private":
+                continue
+            if kind == "send":
+                if beh[0] == "nometh":
+                    w += 1
+                    probes.append(nprom)
+                    prog.append(["when", nprom, w, "when"])
+                nprom += 1
+        prog.append(["when", 0, 102, "then"])
+        if not late:
+            prog += resolution(res, late)
+        prog += [["sendonly", 0, mid + 1, ["nometh"]], ["send", 0, mid + 2, ["ret", 50]]]
+        nprom += 1
+        for k, r in enumerate(probes):       # a message to the result promise of the missing-method send
+            prog.append(["send", r, mid + 3 + k, ["ret", 51]])
+            prog.append(["when", nprom, 120 + k, "except"])
+            nprom += 1
+        return prog + [["turn"], ["turn"], ["turn"], ["turn"], ["turn"]]
+
+    for n in (1, 2, 3):
+        for pos in range(n):
+            for kind in ("send", "sendonly"):
+                for flavour in (0, 1):
+                    behs = []
+                    for j in range(n):
+                        if j == pos:
+                            behs.append((kind, ["nometh"]))
+                        else:
+                            k2 = "send" if (j + flavour) % 2 == 0 else "sendonly"
+                            behs.append((k2, ["ret", 41 + j] if flavour == 0 else ["raise", 3 * j + (61 if j % 2 else 60)]))
+                    for res in ("val", "fail", "chain"):
+                        for late in (False, True):
+                            out.append(build(behs, res, late))
+    for kind in ("send", "sendonly"):
+        for res in ("val", "fail", "chain"):
+            for late in (False, True):
+                out.append(build([("send", ["ret", 41]), (kind, ["private"]), (kind, ["nometh"]), ("send", ["ret", 43])], res, late))
     return out
 
 
@@ -681,9 +796,17 @@ def pr_args_family(ctx):
 def pr_programs(ctx):
     out = pr_chain_family(ctx) + pr_args_family(ctx) + pr_deferred_family(ctx) + pr_backlog_family(ctx)
     maxlen = ctx.n(3, 4)
+    thorough = ctx.tier == "thorough"
     for n in range(1, maxlen + 1):
-        for wd in itertools.product(PR_LETTERS, repeat=n):
+        letters = PR_LETTERS_THOROUGH if thorough else PR_LETTERS
+        for wd in itertools.product(letters, repeat=n):
             out.append(pr_word(wd))
+    if not thorough:
+        # quick tier: the missing-method letter N only over a small alphabet (every word of length <= 3 that uses it)
+        for n in range(1, 4):
+            for wd in itertools.product(PR_NOMETH_CORE, repeat=n):
+                if "N" in wd:
+                    out.append(pr_word(wd))
     # every word of length 4..5 over the core alphabet that has a resolution, a send, an observer and a turn
     core = "SWVBCvbT"
     for n in sorted(set((4, ctx.n(4, 5)))):
@@ -711,8 +834,9 @@ def vol_specs(ctx):
     """(n, [(position, kind)], turns): n callables / messages submitted in one go; the ones at the listed positions
     (1-based) enqueue / send more work while they run (kind 0), and also raise an Exception (1) / a BaseException (2)"""
     specs = []
-    sizes = VOL_SIZES + ([ctx.rng.randrange(3, 3000) for _ in range(6)] if ctx.tier == "thorough" else
-                         [ctx.rng.randrange(1002, 3000)])
+    # quick tier (CPU budget): sizes up to 2048 and one random size between 1002 and 1500; thorough: up to 3000 + 6 random
+    sizes = (VOL_SIZES + [ctx.rng.randrange(3, 3000) for _ in range(6)]) if ctx.tier == "thorough" else \
+        ([n for n in VOL_SIZES if n <= 2048] + [ctx.rng.randrange(1002, 1500)])
     for n in sizes:
         bounds = [x for b in (256, 1000, 1024, 2048) for x in (b - 1, b, b + 1) if 1 <= x <= n]
         allpos = sorted(set(([1, (n + 1) // 2, n] if n else []) + bounds))
@@ -780,7 +904,7 @@ Definition vol_sc (n : Z) (sp : list (Z * Z)) (i : Z) : script :=
   end.
 Definition vol_prog (c : Z * list (Z * Z) * nat) : list op :=
   let '(n, sp, turns) := c in
-  map (fun i => OAct (AEnq (vol_sc n sp (Z.of_nat i)))) (seq 1 (Z.to_nat n)) ++ repeat OTurn turns.
+  map (fun i => OAct (AEnq (vol_sc n sp (Z.of_nat i)))) (List.seq 1 (Z.to_nat n)) ++ repeat OTurn turns.
 """
 
 VOL_PR_COQ = VOL_COQ + """
@@ -790,7 +914,7 @@ Definition vol_msg (n before : Z) (sp : list (Z * Z)) (i : Z) : list pop :=
    if Z.eqb (i mod 97) 0 then PSend 0 i b else PSendOnly 0 i b].
 Definition vol_prog (c : Z * Z * list (Z * Z) * nat) : list pop :=
   let '(n, before, sp, turns) := c in
-  [PNew] ++ flat_map (fun i => vol_msg n before sp (Z.of_nat i)) (seq 1 (Z.to_nat n)) ++
+  [PNew] ++ flat_map (fun i => vol_msg n before sp (Z.of_nat i)) (List.seq 1 (Z.to_nat n)) ++
   (if Z.leb n before then [PResolve 0 (RVal 5)] else []) ++ repeat PTurn turns.
 """
 
@@ -813,6 +937,8 @@ def volume(ctx, impl, model_ok):
     with impl.E.quiet():
         for spec in specs:
             n = spec[0]
+            if n > 1025 and ctx.tier != "thorough":
+                continue            # CPU budget of the quick tier: the promise volume cases stop at 1025 messages
             choices = sorted(set([0, n, n // 2]))
             if ctx.tier != "thorough":
                 choices = [choices[(len(prs) + n) % len(choices)]]
